@@ -17,6 +17,9 @@ EXTENDS Integers, Sequences, FiniteSets, TLC, Json, IOUtils, QSProb
 S == INSTANCE LPSem
 ED == INSTANCE ExactDriver WITH MaxMpf <- 12
 BF == INSTANCE BasisFile
+NL == INSTANCE NumLit
+LPF == INSTANCE LPFile
+MPSF == INSTANCE MPSFile
 
 Tr == ndJsonDeserialize(IOEnv.TRACE)
 VerdictFile == IOEnv.VERDICT
@@ -227,7 +230,7 @@ RoundTripDefects(L1, L2, native) ==    \* native: ranged rows must come back as 
                  L2.obj[k] = L1.obj[j] /\ L2.lo[k] = L1.lo[j] /\ L2.up[k] = L1.up[j] /\ L2.isint[k] = L1.isint[j]
            THEN {} ELSE {"a column (matched by name) differs in objective coefficient, bounds or integrality"})
           \cup (IF NormHalves(Halves(L1)) = NormHalves(Halves(L2)) THEN {} ELSE {"row constraints differ"})
-          \cup (IF \A i \in NonEmptyRows(L1) : (L1.sense[i] # "R" \/ native) =>
+          \cup (IF \A i \in NonEmptyRows(L1) : (L1.rname[i] # UNKNOWN /\ (L1.sense[i] # "R" \/ native)) =>
                       /\ L1.rname[i] \in SetOfSeq(L2.rname)
                       /\ LET k == RowIdx(L2, L1.rname[i]) IN
                            /\ RowTerms(L2, k) = RowTerms(L1, i) /\ L2.sense[k] = L1.sense[i] /\ L2.rhs[k] = L1.rhs[i]
@@ -276,7 +279,15 @@ Step(ev) ==
           [] c = "read_prob" -> IF ev.ok = 1 THEN R(NewH(EmptyLP(FALSE), FALSE), {}) ELSE R(Dead, {})
           [] ~live -> R(s, {})
           [] c = "dump" ->
-               IF ~s.sync THEN R([s EXCEPT !.sync = DumpOK(ev), !.lp = IF DumpOK(ev) THEN LPFromDump(ev) ELSE @, !.pend = {}, !.par = ev.par], {})
+               IF ~s.sync THEN
+                 \* first view of a problem the specification did not build (read from a file): it must at least be internally
+                 \* consistent - all query calls succeed, the two row views agree, the column view is the transpose, names are unique
+                 LET ok == DumpOK(ev)
+                     P == IF ok THEN LPFromDump(ev) ELSE EmptyLP(FALSE)
+                     d == IF ~ok THEN {"a query call failed on a problem returned by the reader"}
+                          ELSE DumpDiff(P, ev) \ {"nzcount"}
+                 IN R([s EXCEPT !.sync = ok, !.lp = IF ok THEN P ELSE @, !.pend = {}, !.par = ev.par],
+                      IF d = {} THEN {} ELSE {V(ev, {"C11"}, "the problem delivered by the reader is internally inconsistent: " \o ToString(d))})
                ELSE LET d == DumpDiff(L, ev) \cup ParDiff(s.par, ev)
                         \* no edit on this handle since the last dump and still different: another handle's call changed it (C16)
                         tags == IF s.pend # {} THEN s.pend ELSE IF s.dirty THEN {"C06"} ELSE {"C06", "C16"}
@@ -388,6 +399,8 @@ Step(ev) ==
           [] c = "witness" ->
                \* untrusted witness of the LP's true status, verified here against the specification's LP
                IF ~s.sync THEN R(s, {})
+               ELSE IF (ev.kind = "opt" /\ (Len(ev.x) # L.n \/ Len(ev.pi) # L.m)) \/ (ev.kind = "inf" /\ Len(ev.y) # L.m) \/ (ev.kind = "unb" /\ (Len(ev.x) # L.n \/ Len(ev.d) # L.n))
+                    THEN R(s, {V(ev, {"INCONCLUSIVE"}, "witness has the wrong dimensions")})
                ELSE IF ev.kind = "opt" /\ S!OptimalPair(L, ev.x, ev.pi) THEN R([s EXCEPT !.truth = [status |-> 1, val |-> S!ObjVal(L, ev.x)]], {})
                ELSE IF ev.kind = "inf" /\ S!FarkasCert(L, ev.y) THEN R([s EXCEPT !.truth = [status |-> 2, val |-> "0"]], {})
                ELSE IF ev.kind = "unb" /\ S!UnboundedCert(L, ev.x, ev.d) THEN R([s EXCEPT !.truth = [status |-> 3, val |-> "0"]], {})
@@ -602,8 +615,37 @@ Next ==
           ELSE IF ev.call = "expect_lp" THEN
              \* the problem a generated file denotes (Gen_LPFile / Gen_MPSFile): what the reader delivered must be exactly that
              LET s2 == st[ev.h]
-                 d == IF s2.live /\ s2.sync THEN RoundTripDefects(ev.lp, s2.lp, ev.fmt = "MPS") ELSE {"the file was not read (reader failed on a valid file)"} IN
+                 want == IF "tree" \in DOMAIN ev THEN (IF ev.fmt = "MPS" THEN MPSF!Denote(ev.tree) ELSE LPF!Denote(ev.tree)) ELSE ev.lp
+                 d == IF s2.live /\ s2.sync THEN RoundTripDefects(want, s2.lp, ev.fmt = "MPS") ELSE {"the file was not read (reader failed on a valid file)"} IN
              /\ viol' = viol \cup (IF d = {} THEN {} ELSE {V(ev, SetOfSeq(ev.props), "problem read from the " \o ev.fmt \o " file differs from the problem the text denotes: " \o ToString(d))})
+             /\ UNCHANGED <<st, slot, ans, glob>>
+          ELSE IF ev.call = "esolver" THEN
+             \* one run of the esolver program on the file the problem of handle h was read from: exit code, parsed solution file,
+             \* optional second run with -B on the basis written with -b
+             LET s0 == st[ev.h]
+                 L == s0.lp
+                 known == s0.live /\ s0.sync /\ UNKNOWN \notin SetOfSeq(L.cname) /\ UNKNOWN \notin SetOfSeq(L.rname)
+                 truth == IF known /\ ~IsNone(s0.truth) THEN s0.truth.status ELSE 0
+                 code == CASE ev.status = "OPTIMAL" -> 1 [] ev.status = "INFEASIBLE" -> 2 [] ev.status = "UNBOUNDED" -> 3 [] OTHER -> 0
+                 pick(list, nm) == LET h == {k \in 1..Len(list) : list[k].name = nm} IN IF h = {} THEN "0" ELSE list[CHOOSE k \in h : TRUE].v
+                 sol == [val |-> ev.val, x |-> [j \in 1..L.n |-> pick(ev.vars, L.cname[j])], rc |-> [j \in 1..L.n |-> pick(ev.rc, L.cname[j])],
+                         pi |-> [i \in 1..L.m |-> pick(ev.pi, L.rname[i])], slack |-> [i \in 1..L.m |-> pick(ev.slack, L.rname[i])]]
+                 strays == ({e.name : e \in SetOfSeq(ev.vars) \cup SetOfSeq(ev.rc)} \ SetOfSeq(L.cname)) \cup ({e.name : e \in SetOfSeq(ev.pi) \cup SetOfSeq(ev.slack)} \ SetOfSeq(L.rname))
+                 zeros == \E e \in SetOfSeq(ev.vars) \cup SetOfSeq(ev.rc) \cup SetOfSeq(ev.pi) \cup SetOfSeq(ev.slack) : e.v = "0"
+                 ds == IF known /\ code = 1 THEN S!OptimalCertDefects(L, sol) ELSE {}
+             IN /\ viol' = viol
+                     \cup (IF ev.exit # 0 THEN {V(ev, {"C19"}, "esolver exits " \o ToString(ev.exit) \o " on a readable problem file (" \o ev.args \o ")")} ELSE {})
+                     \cup (IF ev.exit = 0 /\ truth # 0 /\ code # truth THEN {V(ev, {"C19"}, "solution file states " \o ev.status \o " but the verified truth is status " \o ToString(truth))} ELSE {})
+                     \cup (IF ev.exit = 0 /\ code = 0 /\ known /\ S!WellFormed(L) THEN {V(ev, {"C19"}, "solution file states no definitive status: " \o ev.status)} ELSE {})
+                     \cup (IF ds = {} THEN {} ELSE {V(ev, {"C19"}, "the solution file does not contain an exact optimality certificate: " \o ToString(DefectText(ds)))})
+                     \cup (IF known /\ code = 1 /\ (strays # {} \/ zeros) THEN {V(ev, {"C19"}, "solution file lists unknown names or zero entries")} ELSE {})
+                     \cup (IF ev.exit = 0 /\ code = 1 /\ truth = 1 /\ ev.val # s0.truth.val THEN {V(ev, {"C19"}, "optimal value in the solution file differs from the verified optimum")} ELSE {})
+                     \cup (IF "exit2" \in DOMAIN ev /\ ev.exit = 0 /\ code = 1 /\ ~(ev.exit2 = 0 /\ ev.status2 = "OPTIMAL" /\ ev.val2 = ev.val)
+                           THEN {V(ev, {"C19"}, "a basis written with -b is not accepted as optimal when read back with -B (exit " \o ToString(ev.exit2) \o ", " \o ev.status2 \o ")")} ELSE {})
+                /\ UNCHANGED <<st, slot, ans, glob>>
+          ELSE IF ev.call = "esolver_bad" THEN
+             \* unreadable / malformed file: non-zero exit, no signal
+             /\ viol' = viol \cup (IF ev.exit > 0 /\ ev.exit < 126 THEN {} ELSE {V(ev, {"C19"}, "esolver on a malformed/unreadable file: exit status " \o ToString(ev.exit))})
              /\ UNCHANGED <<st, slot, ans, glob>>
           ELSE IF ev.call = "determinism" THEN
              /\ viol' = viol \cup (IF ev.digest1 = ev.digest2 THEN {} ELSE {V(ev, {"C17"}, "two executions of the same scenario in fresh processes differ (first difference at event " \o ToString(ev.first) \o ": " \o ev.what \o ")")})
@@ -611,6 +653,15 @@ Next ==
           ELSE IF ev.call = "shutdown" THEN
              /\ viol' = viol \cup (IF ev.leak > 0 THEN {V(ev, {"C18"}, "memory allocated by the library is still unreleased after everything was freed and the library shut down (LeakSanitizer): " \o (IF "sites" \in DOMAIN ev THEN ev.sites ELSE "?"))} ELSE {})
              /\ UNCHANGED <<st, slot, ans, glob>>
+          ELSE IF ev.call = "readnum" THEN
+             \* the real scanner on one string: must behave as its transcription NumLit!Scan, and read every valid literal as its value
+             LET r == NL!Scan(ev.chars)
+                 vSpec == IF r.used = ev.used /\ (ev.used = 0 \/ r.val = ev.v) THEN {}
+                          ELSE {V(ev, {"C10", "C11"}, "number scanner deviates from its specification on " \o ToString(ev.chars) \o ": consumed " \o ToString(ev.used) \o " value " \o ev.v
+                                       \o ", specified " \o ToString(r.used) \o " value " \o r.val)}
+                 vDen == IF NL!IsLiteral(ev.chars) /\ ~(ev.used = Len(ev.chars) /\ ev.v = NL!Value(ev.chars))
+                         THEN {V(ev, {"C10"}, "valid literal " \o ToString(ev.chars) \o " read as " \o ev.v \o " (" \o ToString(ev.used) \o " characters), denotes " \o NL!Value(ev.chars))} ELSE {}
+             IN /\ viol' = viol \cup vSpec \cup vDen \cup Quiet(ev) /\ UNCHANGED <<st, slot, ans, glob>>
           ELSE IF ev.call \in {"mkbasis", "free_basis"} THEN
              /\ slot' = [slot EXCEPT ![ev.b] = IF ev.call = "mkbasis" THEN BasOf(ev.bas) ELSE NoneR]
              /\ viol' = viol \cup Quiet(ev) /\ UNCHANGED <<st, ans, glob>>
